@@ -1027,10 +1027,21 @@ where
         let (t, tf) = pick(r);
         (s, sf, t, tf)
     };
+    // a goal fault: the goal callback (not the validity callback) fails on a box around the goal target, i.e. on part
+    // of the goal region itself - the planner has to reach the rest of the region
+    let fault: Option<(String, BoxObs)> = match (&fault, goal_fault) {
+        (Some((k, b)), true) => {
+            let tc = (kit.coords)(&target);
+            let n = b.lo.len();
+            let hw = q(goal_radius * 0.5);
+            Some((k.clone(), BoxObs { lo: (0..n).map(|i| q(tc[i]) - hw).collect(), hi: (0..n).map(|i| q(tc[i]) + hw).collect() }))
+        }
+        _ => fault,
+    };
     let mut checkers = vec![];
     for vi in 0..2u32 {
         let bx = boxes.clone();
-        let ft = fault.clone();
+        let ft = if goal_fault { None } else { fault.clone() };
         let c = kit.coords.clone();
         let fl = kit.flat.clone();
         let tr = trace.clone();
@@ -1113,7 +1124,9 @@ where
 }
 
 pub fn build_py_rv(r: &mut Sm, o: &GenOpts) -> Scenario<RealVectorState, RealVectorStateSpace> {
-    let space = RealVectorStateSpace::new(2, Some(vec![(0.0, 10.0), (0.0, 10.0)])).unwrap();
+    let mut space = RealVectorStateSpace::new(2, Some(vec![(0.0, 10.0), (0.0, 10.0)])).unwrap();
+    let fr = *r.pick(&[0.05, 0.05, 0.03125, 0.125, 0.5]);
+    space.set_longest_valid_segment_fraction(fr);
     let kit = PyKit {
         flat: Arc::new(|s: &RealVectorState| s.values.clone()),
         coords: Arc::new(|s: &RealVectorState| s.values.clone()),
@@ -1122,12 +1135,14 @@ pub fn build_py_rv(r: &mut Sm, o: &GenOpts) -> Scenario<RealVectorState, RealVec
             (RealVectorState::new(v.clone()), v)
         }),
     };
-    let desc = J::obj(vec![("dim", J::Int(2)), ("bounds", J::Arr(vec![hexv(&[0.0, 10.0]), hexv(&[0.0, 10.0])]))]);
+    let desc = J::obj(vec![("dim", J::Int(2)), ("bounds", J::Arr(vec![hexv(&[0.0, 10.0]), hexv(&[0.0, 10.0])])), ("fractions", hexv(&[fr]))]);
     py_world(r, o, "rv", space, desc, 14.0, kit, 2, 1.0, 9.0, 0.75)
 }
 
 pub fn build_py_so2(r: &mut Sm, o: &GenOpts) -> Scenario<SO2State, SO2StateSpace> {
-    let space = SO2StateSpace::new(None).unwrap();
+    let mut space = SO2StateSpace::new(None).unwrap();
+    let fr = *r.pick(&[0.05, 0.05, 0.03125, 0.125, 0.5]);
+    space.set_longest_valid_segment_fraction(fr);
     let kit = PyKit {
         flat: Arc::new(|s: &SO2State| vec![s.value]),
         coords: Arc::new(|s: &SO2State| vec![s.value]),
@@ -1137,11 +1152,13 @@ pub fn build_py_so2(r: &mut Sm, o: &GenOpts) -> Scenario<SO2State, SO2StateSpace
             (s.clone(), vec![v])
         }),
     };
-    py_world(r, o, "so2", space, J::obj(vec![("bounds", J::Null)]), PI, kit, 1, -2.5, 2.5, 0.25)
+    py_world(r, o, "so2", space, J::obj(vec![("bounds", J::Null), ("fractions", hexv(&[fr]))]), PI, kit, 1, -2.5, 2.5, 0.25)
 }
 
 pub fn build_py_so3(r: &mut Sm, o: &GenOpts) -> Scenario<SO3State, SO3StateSpace> {
-    let space = SO3StateSpace::new(None).unwrap();
+    let mut space = SO3StateSpace::new(None).unwrap();
+    let fr = *r.pick(&[0.05, 0.05, 0.03125, 0.125, 0.5]);
+    space.set_longest_valid_segment_fraction(fr);
     let kit = PyKit {
         flat: Arc::new(|s: &SO3State| vec![s.x, s.y, s.z, s.w]),
         coords: Arc::new(|s: &SO3State| {
@@ -1153,7 +1170,7 @@ pub fn build_py_so3(r: &mut Sm, o: &GenOpts) -> Scenario<SO3State, SO3StateSpace
             (q.clone(), vec![q.x, q.y, q.z, q.w])
         }),
     };
-    py_world(r, o, "so3", space, J::obj(vec![]), 0.5 * PI, kit, 2, -0.7, 0.7, 0.3)
+    py_world(r, o, "so3", space, J::obj(vec![("fractions", hexv(&[fr]))]), 0.5 * PI, kit, 2, -0.7, 0.7, 0.3)
 }
 
 pub fn build_py_se2(r: &mut Sm, o: &GenOpts) -> Scenario<SE2State, SE2StateSpace> {
@@ -1192,8 +1209,12 @@ pub fn build_py_se3(r: &mut Sm, o: &GenOpts) -> Scenario<SE3State, SE3StateSpace
 
 pub fn build_py_css(r: &mut Sm, o: &GenOpts) -> Scenario<CompoundState, CompoundStateSpace> {
     let w = *r.pick(&[0.5, 1.0]);
-    let r2 = RealVectorStateSpace::new(2, Some(vec![(0.0, 10.0), (0.0, 10.0)])).unwrap();
-    let so2 = SO2StateSpace::new(None).unwrap();
+    let mut r2 = RealVectorStateSpace::new(2, Some(vec![(0.0, 10.0), (0.0, 10.0)])).unwrap();
+    let mut so2 = SO2StateSpace::new(None).unwrap();
+    // the resolution fractions are set on the subspaces BEFORE they are composed (Python: same calls, same order)
+    let (fr1, fr2) = (*r.pick(&[0.05, 0.05, 0.03125, 0.125, 0.5]), *r.pick(&[0.05, 0.05, 0.03125, 0.125, 0.5]));
+    r2.set_longest_valid_segment_fraction(fr1);
+    so2.set_longest_valid_segment_fraction(fr2);
     let subs: Vec<Box<dyn AnyStateSpace>> = vec![Box::new(r2), Box::new(so2)];
     let space = CompoundStateSpace::new(subs, vec![1.0, w]);
     fn get(s: &CompoundState) -> (f64, f64, f64) {
@@ -1218,6 +1239,6 @@ pub fn build_py_css(r: &mut Sm, o: &GenOpts) -> Scenario<CompoundState, Compound
             )
         }),
     };
-    let desc = J::obj(vec![("weights", hexv(&[1.0, w])), ("bounds", J::Arr(vec![hexv(&[0.0, 10.0]), hexv(&[0.0, 10.0])]))]);
+    let desc = J::obj(vec![("weights", hexv(&[1.0, w])), ("bounds", J::Arr(vec![hexv(&[0.0, 10.0]), hexv(&[0.0, 10.0])])), ("fractions", hexv(&[fr1, fr2]))]);
     py_world(r, o, "compound", space, desc, 14.0, kit, 2, 1.0, 9.0, 0.75)
 }
